@@ -151,3 +151,11 @@ Proof.
   split; [exact H1|]. split; [exact H3|exact H4].
 Qed.
 Print Assumptions C11_fail_stop_with_source.
+
+(* ... and an iterator that catches the PANIC of a call it makes ([catch_all]) drops that too: what the call says on the bus
+   is what it says alone, and neither its protocol failure nor its panic becomes the outer call's. *)
+Theorem C11_nested_call_panic_caught : forall (A : Type) (p : prog A) script,
+  fst (run_script (catch_all p) script) = fst (run_script p script)
+  /\ snd (run_script (catch_all p) script) <> ProtoErr /\ snd (run_script (catch_all p) script) <> Crashed.
+Proof. exact @SourceP.run_script_catch_all. Qed.
+Print Assumptions C11_nested_call_panic_caught.
